@@ -154,6 +154,9 @@ impl Property for C14 {
         let keys = all_keys(&case.dic);
         for t in &case.texts {
             let text = render_pieces(&keys, t);
+            if f7_guard(&mut rep, &case.dic, &case.cfg, &text, ctx.strict) {
+                continue;
+            }
             let (mw, mo) = match (analyze(&with, &text, Mode::C, None), analyze(&without, &text, Mode::C, None)) {
                 (Ok(a), Ok(b)) => (a, b),
                 (Err(_), Err(_)) => continue,
